@@ -113,7 +113,7 @@ func genTrial(prop, variant string, seed uint64, i int) TrialCfg {
 		c.Stats = true
 		c.Exec = r.Intn(3)
 	}
-	c.Procs = []int{0, 0, 2, 4}[r.Intn(4)]
+	c.Procs = []int{0, 0, 2, 4, 3, 5, 7}[r.Intn(7)] // parallel table copies split by GOMAXPROCS: also non powers of two
 	return c
 }
 
